@@ -44,7 +44,8 @@ func sqlC06(args []string) error {
 	exh := args[2] == "1"
 	rng := rand.New(rand.NewSource(envSeed()))
 
-	if exh {
+	if exh && envStart() == 0 {
+		curScenario = -1
 		// every ordered conjunction of <= 3 atoms on one indexed integer column over 3 constants,
 		// once with the statistics as they are after loading and once after a refresh
 		s, err := newRun(tw, ctxName("C06"), 400)
@@ -83,7 +84,8 @@ func sqlC06(args []string) error {
 		}
 	}
 
-	for sc := 0; sc < nscen; sc++ {
+	for sc := envStart(); sc < nscen; sc++ {
+		rng := scenarioRng(sc)
 		s, err := newRun(tw, ctxName("C06"), 400)
 		if err != nil {
 			return err
